@@ -12,7 +12,7 @@ use vp_base::tape::{self, Tape};
 
 pub const RULE: &str = "tape -> seekable kind (CTR 32/64/128 BE/LE, BelT), cipher config, key, IV, history of <= 12 ops from {try_seek::<T>(p), \
 try_apply_keystream / _inout / _b2b (n bytes), try_current_pos::<T>()}, T in {i32,u32,u64,u128,usize}, p in classes {0, small, inside a block, \
-around 2^31/2^32/2^36/2^64, end - few blocks, backward relative to the current position, same position, beyond the counter range (must fail)}; \
+around 2^31/2^32/2^36/2^64, end - few blocks, backward relative to the current position, same position}; \
 requests crossing the keystream end are not generated (C11); oracle = position model + reference keystream; non-trivial = >= 2 seeks with data \
 in between, one of them backward or into the middle of a block, or a position beyond 2^32; distinct by hash of decoded values";
 
@@ -75,17 +75,15 @@ pub fn check(ctx: &Ctx, t: &mut Tape<'_>, r: &mut Report) -> CheckResult {
                     115..=134 => 1u128 << 64,
                     135..=164 => end_bytes - (a % (4 * bs as u128)).min(end_bytes),
                     165..=199 => q.bytes(bs).unwrap_or(0), // relative to the current position (same / backward / forward by j)
-                    200..=219 => {
-                        // beyond the counter range: must be refused (only expressible for w < 128)
-                        if w < 128 { (1u128 << w) * bs as u128 + a % (1 << 20) } else { 0 }
-                    }
+                    // (positions beyond the counter range belong to C11 and are generated there)
+                    200..=219 => a % (40 * bs as u128),
                     _ => {
                         let mut st = (a as u64) ^ 0xABCD;
                         let x = ((vp_base::tape::splitmix(&mut st) as u128) << 64) | vp_base::tape::splitmix(&mut st) as u128;
                         x % end_bytes.max(1)
                     }
                 };
-                let beyond = (200..=219).contains(&class) && w < 128;
+                let beyond = false;
                 let p = if beyond { base } else { (base as i128).checked_add(j as i128).map(|v| v.max(0) as u128).unwrap_or(base).min(end_bytes.saturating_sub(1)) };
                 if !beyond && end_bytes == 0 {
                     continue;
